@@ -388,7 +388,7 @@ class Module(nn.Module):
             for name, param in local_state.items():
                 key = prefix + name
                 if key in state_dict:
-                    param.data = state_dict[key].data
+                    param.data = state_dict[key].data.clone()  # never share storage with the dict (or the model it came from)
 
     def _load_from_state_dict(
         self, state_dict, prefix, local_metadata, strict, missing_keys, unexpected_keys, error_msgs
